@@ -5,8 +5,9 @@
 (* its single-field mutants (signature term or message field) and followed *)
 (* by its exact replay; earlier accepted signatures are replayed verbatim  *)
 (* and re-targeted to the current state; misbehaviour (valid with either   *)
-(* path encoding, and mutated) is submitted late in the walk, after which  *)
-(* every further request must be refused.                                  *)
+(* path encoding, and mutated) is submitted late in the walk and always    *)
+(* six steps before its end, after which every further request must be     *)
+(* refused.                                                                *)
 (***************************************************************************)
 EXTENDS SoloMachine, Json
 
@@ -29,7 +30,11 @@ Next ==
        \E mm \in { RandomElement(Mutants(m)) } :
        \E g  \in { RandomElement(SigMutants(h1.sig)) } :
        \E o  \in { IF oks = <<>> THEN h ELSE oks[RandomElement(1..Len(oks))] } :
-       \E plan \in { IF todo # <<>> THEN todo
+       \E mr \in { RandomElement({ x \in OkMisbs(Thaw(S)) : x.pform = "raw" }) } :
+       \E mk \in { RandomElement({ x \in OkMisbs(Thaw(S)) : x.pform = "merkle" }) } :
+       \E plan \in { IF Len(sched) = Depth - 6      \* forced ending: misbehaviour (freeze), then four more requests
+                     THEN (IF roll <= 50 THEN <<mr, mk, h, c, o, h1>> ELSE <<mm, mk, h, c, o, h1>>)
+                     ELSE IF todo # <<>> THEN todo
                      ELSE IF roll <= 50 THEN <<h1, h2, h, h>>
                      ELSE IF roll <= 65 THEN <<o, [c EXCEPT !.sig = o.sig]>>
                      ELSE IF roll <= 78 THEN <<mm>>
